@@ -761,6 +761,39 @@ def rule_N2(ctx, rule: str = "N2") -> None:
     lp = f["load_loop"]
     n = accepted_bytes(lp)
     if n is None:
+        # an endless loop (count(..) / while True) none of whose tests looks at how many bytes were taken - not at the induction
+        # variable, a counter, or the bytes collected so far - cannot bound the length: a continuation byte with an empty payload
+        # (0x80) adds nothing to the decoded value, so no test of the value tells the 10th byte from the 11th
+        loop = lp.get("loop")
+        if loop is None:
+            loops_ = [x for x in ast.walk(lv) if isinstance(x, (ast.For, ast.While))]
+            loop = loops_[0] if len(loops_) == 1 else None
+        endless = loop is not None and ((isinstance(loop, ast.While) and isinstance(loop.test, ast.Constant) and loop.test.value is True)
+                                        or (isinstance(loop, ast.For) and isinstance(loop.iter, ast.Call) and ast.unparse(loop.iter.func) in ("count", "itertools.count")))
+        if endless:
+            counters = set()
+            if isinstance(loop, ast.For):
+                counters |= {x.id for x in ast.walk(loop.target) if isinstance(x, ast.Name)}
+            for x in ast.walk(loop):
+                if isinstance(x, ast.AugAssign) and isinstance(x.target, ast.Name) and isinstance(x.op, (ast.Add, ast.Sub)):
+                    counters.add(x.target.id)        # counters and byte accumulators (raw += b)
+                if isinstance(x, ast.Call) and isinstance(x.func, ast.Attribute) and x.func.attr in ("append", "extend") and isinstance(x.func.value, ast.Name):
+                    counters.add(x.func.value.id)
+            # what is computed from them (one step): `n = len(raw)`
+            for x in ast.walk(loop):
+                if isinstance(x, ast.Assign) and len(x.targets) == 1 and isinstance(x.targets[0], ast.Name) and any(isinstance(y, ast.Name) and y.id in counters for y in ast.walk(x.value)):
+                    counters.add(x.targets[0].id)
+            tests = [x.test for x in ast.walk(loop) if isinstance(x, (ast.If, ast.While, ast.IfExp, ast.Assert))]
+            length_tests = [t for t in tests if any(isinstance(y, ast.Name) and y.id in counters for y in ast.walk(t))]
+            # the decoded value itself is an accumulator too (result |= ..): a test of it is a test of the value, not of the length
+            value_accs = {x.target.id for x in ast.walk(loop) if isinstance(x, ast.AugAssign) and isinstance(x.target, ast.Name) and isinstance(x.op, (ast.BitOr, ast.LShift))}
+            length_tests = [t for t in length_tests if not {y.id for y in ast.walk(t) if isinstance(y, ast.Name)} & counters <= value_accs]
+            if not length_tests:
+                ctx.refuted(rule, "load_varint:bound", "unbounded", loc,
+                            "the decode loop is endless and none of its tests looks at how many bytes were taken (only at the decoded value or the byte just read): a varint padded with "
+                            "continuation bytes that carry no payload (0x80 ... 0x00) is accepted at any length, and more than 10 bytes are consumed for one varint",
+                            "load_varint(BytesIO(b'\\x80' * 10 + b'\\x00'))")
+                return
         ctx.inconclusive(rule, "load_varint:bound", "loop bound not derivable (no recognised guard on the induction variable)", loc)
         return
     if n != SPEC_MAXLEN:
